@@ -107,6 +107,60 @@ def cpython_bind(sigsrc, npos, kws):
         return ("TypeError", None)
 
 
+def h_eval_defaults(eng):
+    """The binding proof below STARTS from the representation of a signature's defaults that EvalFunc.eval_defaults leaves on the
+    function object (defaults, kw_defaults aligned with the keyword-only parameters, num_posn_arg).  This harness runs the real
+    eval_defaults on every signature of the shape domain and checks that it produces exactly that representation, so the two
+    compose: a definition followed by a call binds like CPython."""
+    eng.max_steps = 10 ** 8
+    H = EvalHarness(eng)
+    it = H.it
+    V = H.mod.env.vars
+    U = "C03/EvalFunc.eval_defaults"
+    eng.cover("ran")
+    bad = []
+    for sig in signatures():
+        sigsrc = sig_source(sig)
+        fdef = ast.parse(f"def f({sigsrc}):\n    pass\n".replace("D['", "D_").replace("']", "")).body[0]
+        npo, nreg, ndef, var, nkw, kd, kwarg = sig
+        allp = [f"p{i + 1}" for i in range(npo)] + [f"a{i + 1}" for i in range(nreg)]
+        want_defaults = [f"default:{n}" for n in allp[len(allp) - ndef:]] if ndef else []
+        want_kw = [{"ok": kd[i], "val": f"default:k{i + 1}" if kd[i] else None} for i in range(nkw)]
+        order = []
+
+        def aeval(i, node, order=order):
+            def th():
+                order.append(node.id)
+                return "default:" + node.id[2:]
+            return Coro(th, "aeval")
+        ctx = Rec(fields={"aeval": aeval}, name="ast_ctx")
+        func = Rec(cls=V["EvalFunc"], fields={"func_def": fdef, "name": "f", "defaults": None, "kw_defaults": None, "num_posonly_arg": npo, "num_posn_arg": None}, name="EvalFunc")
+        kind, val = run_catching(it, lambda: it.await_(it.call(it.getattr_(func, "eval_defaults"), [ctx], {})))
+        f = func._fields
+        ok = (kind == "ok" and list(f["defaults"] or []) == want_defaults and [dict(x) for x in (f["kw_defaults"] or [])] == want_kw
+              and f["num_posn_arg"] == npo + nreg - len(want_defaults))
+        if not ok:
+            bad.append(sigsrc)
+    ob = eng.oblige(f"{U}/post.representation-is-the-one-the-binding-proof-starts-from", bad == [])
+    if ob.status == "refuted":
+        # (a different representation need not bind differently for every signature: hand the replay the ones where a required
+        # keyword-only parameter stands next to a defaulted one first)
+        pick = sorted(bad, key=lambda t: (("k1, k2=D" not in t) and ("k1=D['k1'], k2" not in t), len(t)))[:5]
+        ob.witness = {"signature": "defaults-representation", "sig": pick[0], "sigs": pick, "n_bad": len(bad)}
+
+
+def replay_defaults(wj):
+    """a signature whose defaults are represented differently: bind a few calls natively against CPython"""
+    from replay.native import run_native
+    r = {"reproduced": False}
+    for sig in wj.get("sigs") or [wj.get("sig", "*, k1, k2=D['k2']")]:
+        for npos, kws in ((0, ("k1",)), (0, ("k2",)), (0, ("k1", "k2")), (1, ()), (2, ("k1",)), (0, ())):
+            r = run_native("c03_binding", {"sig": sig.replace("D['", "").replace("']", "_default"), "npos": npos, "kws": list(kws)})
+            if r.get("reproduced") or r.get("error"):
+                return r
+    return r
+
+
 def h_binding(chunk, nchunks, stride):
     def h(eng):
         eng.max_steps = 10 ** 9
@@ -186,6 +240,8 @@ def harnesses():
     hs = []
     for c in range(NCHUNKS):
         # the whole shape domain of the property (206 080 call shapes) is cheap enough for the quick tier
+        if c == 0:
+            hs.append(Harness("eval_defaults.representation", h_eval_defaults, units=[(E_PY, "EvalFunc.eval_defaults")], replay=replay_defaults))
         hs.append(Harness(f"binding[{c}/{NCHUNKS}]", h_binding(c, NCHUNKS, 1), units=[(E_PY, "EvalFunc.call")], replay=replay_binding))
     return hs
 
